@@ -302,7 +302,11 @@ int32_t jls_twr_close(struct jls_twr_s * self) {
     if (self) {
         JLS_LOGI("jls_twr_close start");
         struct msg_header_s hdr = { .msg_type = MSG_CLOSE };
-        msg_send(self, &hdr, NULL, 0);
+        while (msg_send(self, &hdr, NULL, 0)) {
+            // The queue stayed full for the whole send timeout (slow storage).  The thread only
+            // exits on this message, and jls_bkt_finalize() joins it: keep trying until it is queued.
+            JLS_LOGW("jls_twr_close: queue full, retrying");
+        }
         jls_bkt_finalize(self->bk);
         JLS_LOGI("jls_bkt_finalize done");
         // jls_wr_flush(self->wr);  // takes too long & blocks UI
